@@ -34,6 +34,8 @@
 #include "parse.h"
 #include "object.h"
 #include "output.h"
+#include "stream.h"
+#include "connection.h"
 #undef protected
 #undef private
 
